@@ -11,6 +11,7 @@ package simrt
 import (
 	"fmt"
 	"runtime"
+	"runtime/debug"
 	"sort"
 	"strings"
 	"sync"
@@ -53,6 +54,10 @@ type Config struct {
 	// FixedStrategy: do not draw a scheduling strategy (uniform choice); used when the decision
 	// tree is enumerated exhaustively.
 	FixedStrategy bool
+	// OnPanic, if set, makes every instrumented goroutine recover a panic that reaches its top
+	// frame and report it here instead of taking the test process down (id and incarnation of
+	// the goroutine, the panic value, the stack). The goroutine then ends.
+	OnPanic func(id, inc int, p any, stack string)
 }
 
 // Sim is one simulated execution.
@@ -74,13 +79,11 @@ type Sim struct {
 	stopReason string
 	invErr     error
 
-	Steps      int
-	Contended  int
-	ilvHash    uint64
-	start      time.Time
-	lastG      *G
-	panicVal   any
-	panicStack string
+	Steps     int
+	Contended int
+	ilvHash   uint64
+	start     time.Time
+	lastG     *G
 
 	writeWin map[any]int // R4 write windows: map identity -> goroutine id inside
 	Stats    map[string]int
@@ -287,13 +290,25 @@ func Exit() {
 	if s == nil {
 		return
 	}
+	var pv any
+	var stack string
+	if s.cfg.OnPanic != nil {
+		if pv = recover(); pv != nil {
+			stack = string(debug.Stack())
+		}
+	}
 	gid := goid()
+	id, inc := 0, 0
 	s.mu.Lock()
 	if g := s.byGoid[gid]; g != nil {
+		id, inc = g.ID, g.Inc
 		g.exited = true
 		delete(s.byGoid, gid)
 	}
 	s.mu.Unlock()
+	if pv != nil {
+		s.cfg.OnPanic(id, inc, pv, stack)
+	}
 }
 
 // Go starts f as an instrumented goroutine of the current incarnation (for harness and peer code).
@@ -382,16 +397,20 @@ func AfterFunc(d time.Duration, f func()) *time.Timer {
 	if s == nil {
 		return time.AfterFunc(d, f)
 	}
-	// the id is allocated when the timer fires: goroutine ids must follow execution order
+	// the id is allocated now, by the (scheduled) caller: timers that fire at the same instant
+	// start their goroutines in an order the simulator does not decide
 	inc := int(s.curInc.Load())
 	if p := s.lookup(false); p != nil {
 		inc = p.Inc
 	}
 	pc := callerPC(1)
+	s.mu.Lock()
+	s.nextID++
+	id := s.nextID
+	s.mu.Unlock()
 	return time.AfterFunc(d, func() {
 		s.mu.Lock()
-		s.nextID++
-		g := &G{ID: s.nextID, Inc: inc, Name: "afterfunc", wake: make(chan struct{}, 1), entry: pc}
+		g := &G{ID: id, Inc: inc, Name: "afterfunc", wake: make(chan struct{}, 1), entry: pc}
 		s.byGoid[goid()] = g
 		s.mu.Unlock()
 		s.park(g, nil, pc)
@@ -516,7 +535,7 @@ type Result struct {
 	Contended   int
 	Interleave  uint64
 	SimTime     time.Duration
-	Err         error  // invariant / simulator-level failure
+	Err         error    // invariant / simulator-level failure
 	Blocked     []string // goroutines parked on a false condition at the end (lock waiters)
 	ParkedAtEnd int
 }
